@@ -3,11 +3,23 @@
 import json, sys
 pid = sys.argv[1]
 n = sys.argv[2] if len(sys.argv) > 2 else "3"
+wave = sys.argv[3] if len(sys.argv) > 3 else ""
+import glob
+avoid = ""
+if wave:
+    prev = []
+    for f in sorted(glob.glob(f"/verif/seeded/{pid}-m*/meta.json")):
+        m = json.load(open(f))
+        prev.append("- " + (m.get("summary") or "").replace("\n", " ")[:300])
+    if prev:
+        avoid = ("\n\nAn earlier tester already delivered the following changes for this property; yours must be DIFFERENT "
+                 "(other functions or other clauses of the property, other triggering conditions) — do not repeat or vary these:\n"
+                 + "\n".join(prev) + "\n")
 for l in open("/verif/properties.jsonl"):
     p = json.loads(l)
     if p["id"] == pid:
         break
-wt = f"/tmp/mut-{pid.lower()}"
+wt = f"/tmp/mut-{pid.lower()}" + (sys.argv[3] if len(sys.argv) > 3 else "")
 print(f"""You are a test engineer. You have your own scratch git worktree of the C library ReadAlongs/SoundSwallower (a small speech recogniser / forced aligner) at `{wt}` (work ONLY there; do not read or touch `/repo`'s working files or anything under `/verif`). The library builds with cmake: `cmake -S {wt} -B {wt}/_build -G Ninja -DCMAKE_BUILD_TYPE=RelWithDebInfo && cmake --build {wt}/_build && cmake --build {wt}/_build --target check` (test executables are EXCLUDE_FROM_ALL; the `check` target builds and runs them); then `ctest --test-dir {wt}/_build -j8 --timeout 900`. On the unmodified tree these 30 tests pass (about a dozen others fail in this offline sandbox and do not matter): lcase1-3, strcmp1-3, ucase1-3, test_acmod, test_acmod_grow, test_add_words, test_bitvec, test_byteorder, test_ckd_alloc, test_dict2pid, test_dict, test_endpointer, test_err, test_feat_fe, test_feat_live, test_fsg, test_hash_iter, test_jsgf, test_listelem_alloc, test_log_shifted, test_ptm_mgau, test_s3file, test_subvq, test_word_align. No network. Acoustic models are in `{wt}/model/en-us` and `fr-fr`, test audio (16 kHz int16 raw) and grammars in `{wt}/tests/data`, unit tests showing API usage in `{wt}/tests/unit`. The public headers are in `{wt}/include/soundswallower`.
 
 Here is a semantic property the library is supposed to satisfy:
@@ -18,4 +30,4 @@ Here is a semantic property the library is supposed to satisfy:
 
 Task: produce {n} different, realistic code changes (each a separate patch against the unmodified tree) that each BREAK this property while the library still compiles and all 30 tests listed above still pass. Each change must need something specific to manifest — a particular multi-step sequence of operations, an unusual input or size relation, a fault at a particular point, or two cooperating sites that each look fine alone — NOT something ordinary use would expose at once. Make them the kind of mistake a maintainer could plausibly introduce in a refactor, "optimisation" or clean-up (off-by-one at a boundary, a dropped branch for a rare case, a swapped comparison, a reset that is skipped on one path, a buffer sized from the wrong variable). Vary the site and the clause of the property that is broken. Do not break the property in a way that only shows as a crash on every use.
 
-For each change i deliver in `{wt}/out/m<i>/`: `patch.diff` (`git diff` against HEAD; must apply with `git apply` to a clean tree), a demonstration `demo.c` (a small standalone C program using the library's headers that exits 0 on the unmodified library and non-zero — printing what went wrong — with the change; say exactly how to compile it against the built static library under `{wt}/_build` with include dirs `{wt}/include`, `{wt}/src` if internal headers are needed, and the build dir for config.h; link with -lm), and `meta.json` with fields: `property` ("{pid}"), `summary` (one sentence), `clause_broken` (which part of the property statement), `needs_to_manifest` (what specific sequence/input/condition is required), `files_changed`, `how_verified` (the commands you ran and their results). Verify all of it yourself: for each change apply it, rebuild, run ctest and confirm the 30 listed tests pass; build and run the demo (must fail); revert (`git checkout -- .`), rebuild, run the demo (must pass). Leave the worktree reverted to HEAD (clean `git status` apart from `_build/` and `out/`) when you finish. Keep the demos deterministic and fast (< 30 s). Report the summaries and paths in your final message.""")
+For each change i deliver in `{wt}/out/m<i>/`: `patch.diff` (`git diff` against HEAD; must apply with `git apply` to a clean tree), a demonstration `demo.c` (a small standalone C program using the library's headers that exits 0 on the unmodified library and non-zero — printing what went wrong — with the change; say exactly how to compile it against the built static library under `{wt}/_build` with include dirs `{wt}/include`, `{wt}/src` if internal headers are needed, and the build dir for config.h; link with -lm), and `meta.json` with fields: `property` ("{pid}"), `summary` (one sentence), `clause_broken` (which part of the property statement), `needs_to_manifest` (what specific sequence/input/condition is required), `files_changed`, `how_verified` (the commands you ran and their results). Verify all of it yourself: for each change apply it, rebuild, run ctest and confirm the 30 listed tests pass; build and run the demo (must fail); revert (`git checkout -- .`), rebuild, run the demo (must pass). Leave the worktree reverted to HEAD (clean `git status` apart from `_build/` and `out/`) when you finish. Keep the demos deterministic and fast (< 30 s). Report the summaries and paths in your final message.""" + avoid)
